@@ -116,14 +116,15 @@ X_other == <<59, 32, 111, 116, 104, 101, 114, 42, 61>>   \* ;SPother*=
 X_name == <<59, 32, 110, 97, 109, 101, 42, 61>>   \* ;SPname*=
 \* h = head `value; name`, cs = label, v / w = percent-escaped values
 ExtSame(h, cs, l, v) == h \o X_star \o cs \o X_q \o l \o X_q \o v                                   \* name*=cs'l'v
-ExtCont(h, cs, v, w) == h \o X_s0 \o cs \o X_q \o X_q \o v \o X_semi \o <<110>> \o X_s1 \o w
+ExtValuesCore == {ExtValues[i] : i \in 1..4}
 ExtTexts ==
-       {ExtSame(h, cs, l, v) : h \in RangeOf(ExtHeads), cs \in RangeOf(ExtLabels), l \in {<<>>, X_en}, v \in RangeOf(ExtValues)}
+       {ExtSame(h, cs, <<>>, v) : h \in RangeOf(ExtHeads), cs \in RangeOf(ExtLabels), v \in RangeOf(ExtValues)}
+  \cup {ExtSame(h, cs, X_en, v) : h \in RangeOf(ExtHeads), cs \in RangeOf(ExtLabels), v \in {ExtValues[1], ExtValues[2], ExtValues[5]}}
   \* continuation: the label is given in section 0 only; section 1 is extended (n*1*=) or plain (n*1=)
   \cup {h \o X_s0 \o cs \o X_q \o X_q \o v \o <<59, 32>> \o n \o s1 \o w :
-          h \in {ExtHeads[1], ExtHeads[3]}, n \in {<<102, 105, 108, 101, 110, 97, 109, 101>>}, cs \in RangeOf(ExtLabels), v \in RangeOf(ExtValues),
-          s1 \in {X_s1, X_p1}, w \in RangeOf(ExtConts)}
+          h \in {ExtHeads[1], ExtHeads[3]}, n \in {<<102, 105, 108, 101, 110, 97, 109, 101>>}, cs \in RangeOf(ExtLabels), v \in ExtValuesCore,
+          s1 \in {X_s1, X_p1}, w \in {ExtConts[1], ExtConts[3]}}
   \* a later extended parameter with an empty charset, or without any charset marker, after one that named a label
-  \cup {ExtSame(h, cs, <<>>, v) \o X_other \o m \o w : h \in {ExtHeads[1], ExtHeads[2]}, cs \in RangeOf(ExtLabels), v \in RangeOf(ExtValues),
-          m \in {<<39, 39>>, <<>>, <<39>>}, w \in RangeOf(ExtConts)}
+  \cup {ExtSame(h, cs, <<>>, v) \o X_other \o m \o w : h \in {ExtHeads[1], ExtHeads[2]}, cs \in RangeOf(ExtLabels), v \in ExtValuesCore,
+          m \in {<<39, 39>>, <<>>, <<39>>}, w \in {ExtConts[2]}}
 =============================================================================
